@@ -28,3 +28,5 @@ pub use orchestrator::ShowExecutionPipeline;
 /// that it can be driven with generated batches like `query::QueryResponseWriter`.
 #[cfg(sneldb_verif)]
 pub use streaming::ShowResponseWriter;
+#[cfg(sneldb_verif)]
+pub use delta::WatermarkDeduplicator;
